@@ -255,9 +255,14 @@ impl KrpcSocket {
 
     fn is_expected_response(&mut self, message: &Message, from: &SocketAddrV4) -> bool {
         // Positive or an error response or to an inflight request.
-        match self.inflight_requests.remove(message.transaction_id) {
-            Some(request) => {
-                if compare_socket_addr(&request.to, from) {
+        //
+        // Only consume the inflight request if the message comes from the address it was sent
+        // to, otherwise anyone guessing the transaction id could make us drop the genuine reply.
+        match self.inflight_requests.sent_to(message.transaction_id) {
+            Some(to) => {
+                if compare_socket_addr(&to, from) {
+                    self.inflight_requests.remove(message.transaction_id);
+
                     return true;
                 } else {
                     trace!(
@@ -419,6 +424,14 @@ impl InflightRequests {
         });
 
         tid
+    }
+
+    /// The address an inflight request was sent to, without consuming it.
+    fn sent_to(&self, key: u32) -> Option<SocketAddrV4> {
+        self.find_by_tid(key)
+            .ok()
+            .and_then(|index| self.requests.get(index))
+            .map(|request| request.to)
     }
 
     fn remove(&mut self, key: u32) -> Option<InflightRequest> {
